@@ -178,10 +178,11 @@ def r08_4(ctx, counts) -> RuleResult:
     reg = ctx.reg
     res = RuleResult(
         'R08.4', 'OPERAND-ISOLATION-SIBLINGS',
-        'For every token that has both an evaluate and a select implementation iterating over '
-        'its operands (`for op in self`): if one of the two gives each operand a fresh '
-        '`copy(context)`, so does the other. The comma operator is the instance: its select '
-        'isolates the operands, and XPath 3.0+ reaches its evaluate for parenthesized sequences.')
+        'For every token that has both an evaluate and a select implementation: an operand '
+        '(self[i], or each `op` of `for op in self`) that one of the two evaluates on a fresh '
+        '`copy(context)` is evaluated on a copy by the other too. Instances: the comma operator '
+        '(XPath 3.0+ reaches its evaluate for parenthesized sequences) and the condition of '
+        '`if`.')
     seen = set()
     n = 0
     for rec in reg.all_records():
@@ -192,34 +193,45 @@ def r08_4(ctx, counts) -> RuleResult:
             continue
         seen.add((ev.func.key, se.func.key))
 
-        def operand_calls(fn, meth):
-            out = []
-            for loop in walk_local(fn.node):
-                if isinstance(loop, ast.For) and dotted(loop.iter) == 'self' and \
-                        isinstance(loop.target, ast.Name):
-                    for c in ast.walk(loop):
-                        if isinstance(c, ast.Call) and isinstance(c.func, ast.Attribute) and \
-                                c.func.attr in ('select', 'evaluate') and \
-                                dotted(c.func.value) == loop.target.id and c.args:
-                            out.append(c)
+        def operand_forms(fn) -> dict[str, set[bool]]:
+            """operand key ('*' for `for op in self`, or the literal index) -> isolation forms"""
+            out: dict[str, set[bool]] = {}
+            loop_vars = {loop.target.id for loop in walk_local(fn.node)
+                         if isinstance(loop, ast.For) and dotted(loop.iter) == 'self'
+                         and isinstance(loop.target, ast.Name)}
+            for c in walk_local(fn.node):
+                if not (isinstance(c, ast.Call) and isinstance(c.func, ast.Attribute)
+                        and c.func.attr in ('select', 'evaluate') and c.args):
+                    continue
+                recv = c.func.value
+                key = None
+                if isinstance(recv, ast.Name) and recv.id in loop_vars:
+                    key = '*'
+                elif isinstance(recv, ast.Subscript) and dotted(recv.value) == 'self' and \
+                        isinstance(recv.slice, ast.Constant):
+                    key = str(recv.slice.value)
+                if key is None:
+                    continue
+                # only the first evaluation of an operand matters for isolation from the others
+                out.setdefault(key, set()).add(_is_fresh_copy(c.args[0], 'context'))
             return out
-        a, b = operand_calls(ev.func, 'evaluate'), operand_calls(se.func, 'select')
-        if not a or not b:
+        a, b = operand_forms(ev.func), operand_forms(se.func)
+        common = sorted(k for k in set(a) & set(b) if True in a[k] or True in b[k])
+        if not common:
             continue
         n += 1
-        iso_a = all(_is_fresh_copy(c.args[0], 'context') for c in a)
-        iso_b = all(_is_fresh_copy(c.args[0], 'context') for c in b)
-        res.instances.append(f'{rec.symbol!r}: {ev.func.name} isolates={iso_a}, '
-                             f'{se.func.name} isolates={iso_b}')
-        if iso_a == iso_b:
-            res.ok()
-        else:
-            lag = ev.func if not iso_a else se.func
-            res.fail(finding('R08.4', lag, (a if not iso_a else b)[0], f'{rec.symbol} operands',
-                             f'{lag.name} evaluates the operands of {rec.symbol!r} on the shared '
-                             f'context while its sibling gives each operand a copy: an operand '
-                             f'that moves the focus leaks into the next one '
-                             f'(a/count((//b, b)) differs between XPath 2.0 and 3.0)'))
+        for k in common:
+            res.instances.append(f'{rec.symbol!r} operand {k}: {ev.func.name} isolates={sorted(a[k])}, '
+                                 f'{se.func.name} isolates={sorted(b[k])}')
+            if a[k] == b[k]:
+                res.ok()
+            else:
+                lag = ev.func if (True in b[k] and a[k] != b[k] and False in a[k]) else se.func
+                res.fail(finding('R08.4', lag, lag.node, f'{rec.symbol} operand {k}',
+                                 f'{lag.name} evaluates operand {k} of {rec.symbol!r} on the shared '
+                                 f'context while its sibling gives it a copy: a focus change in '
+                                 f'that operand (or a generator left suspended by an early exit '
+                                 f'of boolean_value) leaks into the operands evaluated next'))
     counts['operand_loop_pairs'] = n
     if n < 1:
         raise AnalysisError('no evaluate/select pair iterating over its operands located')
